@@ -37,7 +37,7 @@ contract(
     API, "chat_completion", prop="C20",
     block=("datastore_key = None", "if body.thread_id"),
     vars={"body": "V", "datastore": "V", "messages": "V", "datastore_key": "V", "thread_messages": "V"},
-    ghost_lists=["got", "loaded"], opaque_here={k: OPQ[k] for k in ("get", "json.loads")},
+    must_reach=["messages = thread_messages + messages"], ghost_lists=["got", "loaded"], opaque_here={k: OPQ[k] for k in ("get", "json.loads")},
     requires=BODY + ["is_list(messages)", "is_none(datastore) or is_obj(datastore)"],
     ensures=[
         "implies(not old(%s), llen(got) == 0 and messages is old(messages) and is_none(datastore_key))" % THREADED,
@@ -57,7 +57,7 @@ contract(
     API, "chat_completion", prop="C20",
     block=("if isinstance(res, GenerationResponse)", "if body.thread_id"),
     vars={"body": "V", "datastore": "V", "messages": "V", "datastore_key": "V", "bot_message": "V", "res": "V"},
-    ghost_lists=["put_keys", "put_vals", "dumped", "made"], opaque_here={k: OPQ[k] for k in ("set", "json.dumps")},
+    must_reach=["await datastore.set(..."], ghost_lists=["put_keys", "put_vals", "dumped", "made"], opaque_here={k: OPQ[k] for k in ("set", "json.dumps")},
     requires=BODY + ["is_list(messages)", "is_obj(datastore)",
                      "is_dict(res) or (is_inst(res, 'GenerationResponse') and has(res, 'response') and is_list(res.response) and llen(res.response) > 0)"],
     ensures=[
